@@ -122,6 +122,42 @@ structure MergeSt where
   td : Str
   ti : Str
 
+def MergeSt.reset (d : Diff) (p : Nat) : MergeSt := { d := d, ptr := p, cd := 0, ci := 0, td := [], ti := [] }
+
+/-- factor the common prefix of the merged insertion / deletion out into the equality before the run (or a new first entry):
+    `(diffs, pointer, text_insert, text_delete)` -/
+def factorPrefix (s : MergeSt) : Diff × Nat × Str × Str :=
+  let cl := commonPrefix s.ti s.td
+  if cl ≠ 0 then
+    let x := s.ptr - s.cd - s.ci
+    -- x is index + 1 of the entry before the run
+    if x ≥ 1 ∧ getOp s.d (x - 1) = some .eq then
+      (s.d.set (x - 1) (.eq, getTx s.d (x - 1) ++ s.ti.take cl), s.ptr, s.ti.drop cl, s.td.drop cl)
+    else
+      ((DOp.eq, s.ti.take cl) :: s.d, s.ptr + 1, s.ti.drop cl, s.td.drop cl)
+  else (s.d, s.ptr, s.ti, s.td)
+
+/-- factor the common suffix out into the equality at the pointer -/
+def factorSuffix (r : Diff × Nat × Str × Str) : Diff × Nat × Str × Str :=
+  let cs := commonSuffix r.2.2.1 r.2.2.2
+  if cs ≠ 0 then
+    (r.1.set r.2.1 (.eq, takeRight cs r.2.2.1 ++ getTx r.1 r.2.1), r.2.1, dropRight cs r.2.2.1, dropRight cs r.2.2.2)
+  else r
+
+/-- both factorings, when the run has deletions and insertions -/
+def factorRun (s : MergeSt) : Diff × Nat × Str × Str :=
+  if s.cd ≠ 0 ∧ s.ci ≠ 0 then factorSuffix (factorPrefix s) else (s.d, s.ptr, s.ti, s.td)
+
+/-- replace the run by at most one deletion and one insertion -/
+def replaceRun (s : MergeSt) (r : Diff × Nat × Str × Str) : MergeSt :=
+  let newOps : Diff := (if r.2.2.2.isEmpty then [] else [(.del, r.2.2.2)]) ++ (if r.2.2.1.isEmpty then [] else [(.ins, r.2.2.1)])
+  let start := r.2.1 - (s.cd + s.ci)
+  MergeSt.reset (r.1.take start ++ newOps ++ r.1.drop (start + s.cd + s.ci)) (start + newOps.length + 1)
+
+/-- merge the equality at the pointer into the previous one -/
+def joinEq (s : MergeSt) : MergeSt :=
+  MergeSt.reset ((s.d.set (s.ptr - 1) (.eq, getTx s.d (s.ptr - 1) ++ getTx s.d s.ptr)).eraseIdx s.ptr) s.ptr
+
 /-- first pass of `diff_cleanupMerge` (the dummy equality is already appended) -/
 def mergePass1 : Nat → MergeSt → Diff
   | 0, s => s.d
@@ -131,34 +167,9 @@ def mergePass1 : Nat → MergeSt → Diff
     | some (.ins, t) => mergePass1 fuel { s with ci := s.ci + 1, ti := s.ti ++ t, ptr := s.ptr + 1 }
     | some (.del, t) => mergePass1 fuel { s with cd := s.cd + 1, td := s.td ++ t, ptr := s.ptr + 1 }
     | some (.eq, _) =>
-      let reset (d : Diff) (p : Nat) : MergeSt := { d := d, ptr := p, cd := 0, ci := 0, td := [], ti := [] }
-      if s.cd + s.ci > 1 then
-        -- factor out common prefix / suffix when both kinds are present
-        let (d1, p1, ti1, td1) :=
-          if s.cd ≠ 0 ∧ s.ci ≠ 0 then
-            let cl := commonPrefix s.ti s.td
-            let (d1, p1, ti1, td1) :=
-              if cl ≠ 0 then
-                let x := s.ptr - s.cd - s.ci
-                -- x is index + 1 of the entry before the run
-                if x ≥ 1 ∧ getOp s.d (x - 1) = some .eq then
-                  (s.d.set (x - 1) (.eq, getTx s.d (x - 1) ++ s.ti.take cl), s.ptr, s.ti.drop cl, s.td.drop cl)
-                else
-                  ((DOp.eq, s.ti.take cl) :: s.d, s.ptr + 1, s.ti.drop cl, s.td.drop cl)
-              else (s.d, s.ptr, s.ti, s.td)
-            let cs := commonSuffix ti1 td1
-            if cs ≠ 0 then
-              (d1.set p1 (.eq, takeRight cs ti1 ++ getTx d1 p1), p1, dropRight cs ti1, dropRight cs td1)
-            else (d1, p1, ti1, td1)
-          else (s.d, s.ptr, s.ti, s.td)
-        let newOps : Diff := (if td1.isEmpty then [] else [(.del, td1)]) ++ (if ti1.isEmpty then [] else [(.ins, ti1)])
-        let start := p1 - (s.cd + s.ci)
-        let d2 := d1.take start ++ newOps ++ d1.drop (start + s.cd + s.ci)
-        mergePass1 fuel (reset d2 (start + newOps.length + 1))
-      else if s.ptr ≠ 0 ∧ getOp s.d (s.ptr - 1) = some .eq then
-        let d1 := (s.d.set (s.ptr - 1) (.eq, getTx s.d (s.ptr - 1) ++ getTx s.d s.ptr)).eraseIdx s.ptr
-        mergePass1 fuel (reset d1 s.ptr)
-      else mergePass1 fuel (reset s.d (s.ptr + 1))
+      if s.cd + s.ci > 1 then mergePass1 fuel (replaceRun s (factorRun s))
+      else if s.ptr ≠ 0 ∧ getOp s.d (s.ptr - 1) = some .eq then mergePass1 fuel (joinEq s)
+      else mergePass1 fuel (MergeSt.reset s.d (s.ptr + 1))
 
 def endsWith (s suffix : Str) : Bool := suffix.length ≤ s.length && takeRight suffix.length s == suffix
 def startsWith (s pre : Str) : Bool := isPrefix pre s
@@ -185,17 +196,21 @@ def mergePass2 : Nat → Diff → Nat → Bool → Diff × Bool
       else mergePass2 fuel d (ptr + 1) ch
     else (d, ch)
 
+/-- remove the dummy entry at the end if it is still empty -/
+def dropDummy (d : Diff) : Diff :=
+  match d.getLast? with
+  | some (_, []) => d.dropLast
+  | _ => d
+
 /-- `diff_cleanupMerge(diffs)` -/
 def cleanupMerge : Nat → Diff → Diff
   | 0, d => d
   | fuel + 1, d =>
     let d0 := d ++ [(DOp.eq, [])]
     let d1 := mergePass1 (4 * d0.length + 8) { d := d0, ptr := 0, cd := 0, ci := 0, td := [], ti := [] }
-    let d2 := match d1.getLast? with
-      | some (_, []) => d1.dropLast
-      | _ => d1
-    let (d3, ch) := mergePass2 (2 * d2.length + 4) d2 1 false
-    if ch then cleanupMerge fuel d3 else d3
+    let d2 := dropDummy d1
+    let r := mergePass2 (2 * d2.length + 4) d2 1 false
+    if r.2 then cleanupMerge fuel r.1 else r.1
 
 /-! ### cleanupSemanticLossless -/
 
@@ -351,9 +366,9 @@ def overlapPass : Nat → Diff → Nat → Diff
 /-- `diff_cleanupSemantic(diffs)` -/
 def cleanupSemantic (d : Diff) : Diff :=
   let n := d.length + (d.map (·.2.length)).sum + 4
-  let (d1, ch) := semPass1 (4 * n * n + 16) { d := d, ptr := 0, eqs := [], lastEq := none, li1 := 0, ld1 := 0,
-                                               li2 := 0, ld2 := 0, changes := false }
-  let d2 := if ch then cleanupMerge (n + 4) d1 else d1
+  let r := semPass1 (4 * n * n + 16) { d := d, ptr := 0, eqs := [], lastEq := none, li1 := 0, ld1 := 0,
+                                        li2 := 0, ld2 := 0, changes := false }
+  let d2 := if r.2 then cleanupMerge (n + 4) r.1 else r.1
   let d3 := lossless (4 * d2.length + 8) d2 1
   overlapPass (4 * d3.length + 8) d3 1
 
